@@ -1125,6 +1125,10 @@ func (s *Server) checkFlushRequest(req *spb.FlushRequest) error {
 		return nil
 	}
 
+	// The current election ID is compared below, it is written by runElection.
+	s.elecMu.RLock()
+	defer s.elecMu.RUnlock()
+
 	id := req.GetId()
 	switch {
 	case id == nil && s.curElecID == nil:
